@@ -1,0 +1,120 @@
+//go:build verif
+
+// Contracts for the deductive checks in /verif (comment-only; compiled only with -tags verif,
+// and even then contains no code).
+//
+// Volume short syntax [SOURCE:]TARGET[:MODE] (Compose specification, services.volumes short syntax).
+
+package format
+
+//@ spec isPropagation(o string) bool = o == "rprivate" || o == "private" || o == "rshared" || o == "shared" || o == "rslave" || o == "slave"
+//@ spec isSELinux(o string) bool = o == "z" || o == "Z"
+
+// "a volume short spec is a bind mount iff its source is a path": a path starts with '.', '/' or '~',
+// is a windows named pipe (\\...), or starts with a drive letter followed by ':'.
+//@ spec pathPrefix(s string) bool = len(s) >= 1 && (sat(s, 0) == '.' || sat(s, 0) == '/' || sat(s, 0) == '~' || (len(s) >= 2 && sat(s, 0) == 92 && sat(s, 1) == 92))
+// the drive-letter disjunct needs unicode.IsLetter / utf8.DecodeRuneInString, which the contract language cannot name reliably
+// (ext_* symbols exist only after some translated body has called them): kept inactive.
+//@? spec pathLike(s string) bool = pathPrefix(s) || (len(s) >= 1 && ext_unicode_utf8_DecodeRuneInString_1(s) < len(s) && ext_unicode_IsLetter_0(ext_unicode_utf8_DecodeRuneInString_0(s)) && sat(s, ext_unicode_utf8_DecodeRuneInString_1(s)) == ':')
+
+//@ func setBindPropagation
+//@   nopanic[C01,C03]
+//@   requires bind != nil
+//@   ensures[C03] bind.Propagation == option
+//@   ensures[C03] bind.SELinux == old(bind.SELinux) && bind.CreateHostPath == old(bind.CreateHostPath)
+
+//@ func setBindSELinux
+//@   nopanic[C01,C03]
+//@   requires bind != nil
+//@   ensures[C03] bind.SELinux == option
+//@   ensures[C03] bind.Propagation == old(bind.Propagation) && bind.CreateHostPath == old(bind.CreateHostPath)
+
+//@ func isBindOption
+//@   nopanic[C01,C03]
+//@   ensures[C03] result <==> (isPropagation(option) || isSELinux(option))
+
+//@ func isWindowsDrive
+//@   nopanic[C01,C03]
+//@   ensures[C03] result ==> (char == ':' && len(buffer) == 1)
+//@?  ensures[C03] result <==> (char == ':' && len(buffer) == 1 && ext_unicode_IsLetter_0(buffer[0]))
+
+//@ func isFilePath
+//@   nopanic[C01,C03]
+//@   ensures[C03] pathPrefix(source) ==> result
+//@   ensures[C03] result ==> len(source) >= 1
+//@?  ensures[C03] result <==> pathLike(source)
+
+//@ func setBindOption
+//@   nopanic[C01,C03]
+//@   requires volume != nil
+//@   requires isPropagation(option) || isSELinux(option)
+//@   ensures[C03] volume.Bind != nil
+//@   ensures[C03] old(volume.Bind) != nil ==> volume.Bind == old(volume.Bind)
+//@   ensures[C03] isPropagation(option) ==> volume.Bind.Propagation == option
+//@   ensures[C03] isSELinux(option) ==> volume.Bind.SELinux == option
+//@   ensures[C03] isPropagation(option) && old(volume.Bind) != nil ==> volume.Bind.SELinux == old(volume.Bind.SELinux)
+//@   ensures[C03] isSELinux(option) && old(volume.Bind) != nil ==> volume.Bind.Propagation == old(volume.Bind.Propagation)
+//@   ensures[C03] isPropagation(option) && old(volume.Bind) == nil ==> volume.Bind.SELinux == ""
+//@   ensures[C03] isSELinux(option) && old(volume.Bind) == nil ==> volume.Bind.Propagation == ""
+//@   ensures[C03] volume.Source == old(volume.Source) && volume.Target == old(volume.Target) && volume.ReadOnly == old(volume.ReadOnly) && volume.Volume == old(volume.Volume) && volume.Type == old(volume.Type)
+
+//@ func populateType
+//@   nopanic[C01,C03]
+//@   requires volume != nil
+//@   ensures[C03] pathPrefix(old(volume.Source)) ==> volume.Type == "bind"
+//@   ensures[C03] old(volume.Source) == "" ==> volume.Type == "volume"
+//@?  ensures[C03] volume.Type == "bind" <==> pathLike(old(volume.Source))
+//@   ensures[C03] volume.Type == "bind" || volume.Type == "volume"
+//@   ensures[C03] volume.Type == "bind" ==> volume.Bind != nil && volume.Bind.CreateHostPath
+//@   ensures[C03] volume.Type == "volume" ==> volume.Volume != nil
+//@   ensures[C03] volume.Source == old(volume.Source) && volume.Target == old(volume.Target) && volume.ReadOnly == old(volume.ReadOnly)
+//@   ensures[C03] old(volume.Bind) != nil ==> volume.Bind == old(volume.Bind) && volume.Bind.SELinux == old(volume.Bind.SELinux) && volume.Bind.Propagation == old(volume.Bind.Propagation)
+//@   ensures[C03] old(volume.Volume) != nil ==> volume.Volume == old(volume.Volume) && volume.Volume.NoCopy == old(volume.Volume.NoCopy)
+
+// One section of [SOURCE:]TARGET[:MODE]: sections fill source, then target, then options; a single
+// section (end of spec with no source yet) is an anonymous volume target; an empty section and a
+// fourth section are errors; an error leaves the volume untouched (no partial load).
+//@ func populateFieldFromBuffer
+//@   nopanic[C01,C03]
+//@   requires volume != nil
+//@   ensures wf(err)
+//@   ensures[C03] len(buffer) == 0 ==> err != nil
+//@   ensures[C03] len(buffer) >= 1 && old(volume.Source) != "" && old(volume.Target) != "" && char == ':' ==> err != nil
+//@   ensures[C03] len(buffer) >= 1 && !(old(volume.Source) != "" && old(volume.Target) != "" && char == ':') ==> err == nil
+//@   ensures[C03] err != nil ==> volume.Source == old(volume.Source) && volume.Target == old(volume.Target) && volume.ReadOnly == old(volume.ReadOnly) && volume.Bind == old(volume.Bind) && volume.Volume == old(volume.Volume) && volume.Type == old(volume.Type)
+//@   ensures[C03] err == nil && old(volume.Source) == "" && char == 0 ==> volume.Source == "" && volume.ReadOnly == old(volume.ReadOnly) && volume.Bind == old(volume.Bind) && volume.Volume == old(volume.Volume)
+//@   ensures[C03] err == nil && old(volume.Source) == "" && char != 0 ==> volume.Target == old(volume.Target) && volume.ReadOnly == old(volume.ReadOnly) && volume.Bind == old(volume.Bind) && volume.Volume == old(volume.Volume)
+//@   ensures[C03] err == nil && old(volume.Source) != "" && old(volume.Target) == "" ==> volume.Source == old(volume.Source) && volume.ReadOnly == old(volume.ReadOnly) && volume.Bind == old(volume.Bind) && volume.Volume == old(volume.Volume)
+//@   ensures[C03] err == nil && old(volume.Source) != "" && old(volume.Target) != "" ==> volume.Source == old(volume.Source) && volume.Target == old(volume.Target)
+//@   ensures[C03] old(volume.Bind) != nil ==> volume.Bind == old(volume.Bind)
+//@   ensures[C03] volume.Type == old(volume.Type)
+//@   loop 1
+//@     invariant volume.Source == old(volume.Source) && volume.Target == old(volume.Target) && volume.Type == old(volume.Type)
+//@     invariant old(volume.Bind) != nil ==> volume.Bind == old(volume.Bind)
+//@     decreases[C01] splitcount(strBuffer, ",") - rangeindex
+//@     invariant[C03] (forall j int :: 0 <= j && j <= rangeindex ==> splitpart(strBuffer, ",", j) != "ro" && splitpart(strBuffer, ",", j) != "rw") ==> volume.ReadOnly == old(volume.ReadOnly)
+//@     invariant[C03] (forall j int :: 0 <= j && j <= rangeindex ==> !isPropagation(splitpart(strBuffer, ",", j)) && !isSELinux(splitpart(strBuffer, ",", j))) ==> volume.Bind == old(volume.Bind)
+//@     invariant[C03] (forall j int :: 0 <= j && j <= rangeindex ==> splitpart(strBuffer, ",", j) != "nocopy") ==> volume.Volume == old(volume.Volume)
+//@     invariant[C03] rangeindex >= 0 && splitpart(strBuffer, ",", rangeindex) == "ro" ==> volume.ReadOnly
+//@     invariant[C03] rangeindex >= 0 && splitpart(strBuffer, ",", rangeindex) == "rw" ==> !volume.ReadOnly
+//@     invariant[C03] (exists j int :: 0 <= j && j <= rangeindex && isSELinux(splitpart(strBuffer, ",", j))) ==> volume.Bind != nil && isSELinux(volume.Bind.SELinux)
+//@     invariant[C03] (exists j int :: 0 <= j && j <= rangeindex && isPropagation(splitpart(strBuffer, ",", j))) ==> volume.Bind != nil && isPropagation(volume.Bind.Propagation)
+//@     invariant[C03] (exists j int :: 0 <= j && j <= rangeindex && splitpart(strBuffer, ",", j) == "nocopy") ==> volume.Volume != nil && volume.Volume.NoCopy
+
+// [SOURCE:]TARGET[:MODE]
+//@ func ParseVolume
+//@   nopanic[C01,C03]
+//@   ensures[C03,C01] len(spec) == 0 ==> err != nil
+//@   ensures[C03] len(spec) == 1 || len(spec) == 2 ==> err == nil && result.0.Type == "volume" && result.0.Target == spec && result.0.Source == "" && !result.0.ReadOnly && result.0.Bind == nil && result.0.Volume == nil
+//@   ensures[C03] err == nil ==> result.0.Type == "bind" || result.0.Type == "volume"
+//@   ensures[C03] err == nil && pathPrefix(result.0.Source) ==> result.0.Type == "bind"
+//@   ensures[C03] err == nil && result.0.Source == "" ==> result.0.Type == "volume"
+//@   ensures[C03] err == nil && len(spec) >= 3 && result.0.Type == "bind" ==> result.0.Bind != nil && result.0.Bind.CreateHostPath
+//@   ensures[C03] err == nil && len(spec) >= 3 && result.0.Type == "volume" ==> result.0.Volume != nil
+// engine limit: the byte position of a `range` over a string has no name in the contract language, so no invariant
+// can say "the last rune seen is endOfSpec" / "this is the first rune", and no decreases can be stated (the loop
+// ranges over a finite string and terminates by Go semantics).
+//@?   ensures[C03] err == nil ==> result.0.Target != ""
+//@?   ensures[C03] len(spec) >= 3 && sat(spec, 0) == ':' ==> err != nil
+//@?   loop 1
+//@?     decreases[C01] len(spec) + 1 - rangeindex
